@@ -93,14 +93,21 @@ def main(argv):
         result = spec["run"](ctx, a.tier)
         result["gate"] = gate
         broken = (not proofs.get("ok")) or result.get("mismatches") or gate
-        if broken and not result.get("violations") and a.tier == "quick" and spec.get("escalate", True):
+        known = vlib.load_known()
+        fresh = [v for v in (result.get("violations") or []) if not vlib.match_known(a.prop, v, known)]
+        if broken and not fresh and a.tier == "quick" and spec.get("escalate", True):
             ctx.log("proof or correspondence broke: escalating to a thorough-size failing-input search")
-            r2 = spec["run"](ctx, "thorough")
-            result["violations"] = r2.get("violations", [])
-            result["search_note"] = "escalated thorough-size search: %s evaluations, %d monitor failures" % (
-                r2.get("evaluations"), len(r2.get("violations", [])))
-            if not result.get("mismatches"):
-                result["mismatches"] = r2.get("mismatches", [])
+            ctx.search = True  # bounded: a changed tree may make the larger search hang (a lock change that live-locks the stress rounds)
+            try:
+                r2 = spec["run"](ctx, "thorough")
+                result["violations"] = (result.get("violations") or []) + [v for v in r2.get("violations", [])
+                                                                            if v.get("key") not in {w.get("key") for w in (result.get("violations") or [])}]
+                result["search_note"] = "escalated thorough-size search: %s evaluations, %d monitor failures" % (
+                    r2.get("evaluations"), len(r2.get("violations", [])))
+                if not result.get("mismatches"):
+                    result["mismatches"] = r2.get("mismatches", [])
+            except Exception as ex:
+                result["search_note"] = "escalated thorough-size search did not finish (%s); the broken proof obligation / correspondence stands" % repr(ex)[:300]
         return vlib.finish(ctx, proofs, result, level=spec.get("level", "proof"))
     except Exception as ex:  # infrastructure failure is reported, never silently passed
         traceback.print_exc()
